@@ -184,3 +184,40 @@ claim('C20',
        'Trusted: Coq kernel, extraction, gen_consts.py, gcc, harness/h_conf.c, ocaml/d_conf.ml (which also formats the error messages).',
   technique='Rocq proof by induction (document-level round trip, buffer-level safety with explicit reads), constants translated from source by a compiled probe, extracted-model and extracted-specification correspondence',
   design='5.20')
+claim('C15',
+  text='Theorems (Coq 8.16, closed under the global context) over allocation scripts that transcribe, allocation by allocation, every constructor and every allocating or releasing operation of '
+       'qtreetbl, qhashtbl, qlisttbl (incl. getmulti with its growing result array), qlist, qvector, qqueue/qstack/qgrow and the qhasharr handle/get/getnext: for EVERY oracle saying which allocation '
+       'requests of the call fail, every summary state and all arguments - a call that reports an allocation failure has not modified the container (C15_*_atomic) and afterwards exactly the blocks '
+       'owned before are owned (nothing allocated by the failed call survives, nothing was released: C15_*_failed_owns_same; failed constructors leave nothing: C15_*_failed_leaves_nothing); in every case the events are legal '
+       '(no double free, no free of foreign or handed-out memory) and the owned live blocks are exactly those reachable from the container (C15_*_valid); a call that does not report failure did exactly what the fault-free run does (C15_*_ok). '
+       'Eight defects of the pinned code were found by the injection sweep and repaired in /repo first (Q_MUTEX_NEW NULL dereference in all thread-safe constructors; qvector constructor leak; qtreetbl put modifying the tree before allocating; '
+       'remove not checking the successor copies; getnext and find_nearest returning half-copied objects; qlisttbl getmulti leaking / truncating; qhashtbl getnext corrupting the cursor). '
+       'Tie: harness/h_api.c linked with --wrap=malloc,calloc,realloc,free,strdup,memcpy,memmove,pthread_mutex_trylock,pthread_mutex_unlock keeps two instances of every container, A with the k-th request (or all from the k-th on) '
+       'made to fail and B never injected; after EVERY op the public-field dumps of A and B must agree (failure => unchanged, success => correct), self-checks, reachable-set = live-set, lock depth delta 0, plain Python reference of contents; '
+       'sweep = every allocating op x corpus of prefix states (0,1,2,3,7,20 elements, colour variety, chains, full vectors, 12 duplicates for getmulti) x every request position, plus retried walks; '
+       'the recorded allocator/copy events of every call must equal the extracted script for the same oracle (0 mismatches).',
+  note='Trusted: Coq kernel, extraction (ExtrOcamlBasic), gcc/clang, ld --wrap, harness/h_api.c, ocaml/d_alloc.ml, checks/alloccommon.py (incl. its reference models and murmur3). The scripts are tied to the C text by the event correspondence only. '
+       'Which object struct a two-child tree removal releases (own or successor) depends on the LLRB shape (C02): both scripts are proved, the tie takes the branch from the trace. void reverse() of qvector reports failure through errno only. '
+       'Walk order of the static hash table is taken from the trace (C06). Allocation failure inside putstrf/DYNAMIC_VSPRINTF, qlisttbl save/load, debug printers: not modelled.',
+  technique='Rocq proofs about allocation scripts for all oracles (count-function ledger invariant, one-step rules, linear arithmetic) + fault-injection A/B differential sweep + extracted-script event correspondence',
+  design='5.15')
+claim('C11',
+  text='The part a theorem can carry - the allocation ledger (blocks identified by allocation sequence number; owned / handed-out sets; never re-used ids): for every container, every constructor outcome, EVERY history of operations with any '
+       'pattern of failing allocations, and the destructor, every free names a live block the container owns (never twice, never caller memory, never a block handed out), every copy writes into and reads from live owned blocks or the caller buffer, '
+       'what a container owns after a call and did not own before was allocated in that call, and after the destructor nothing is owned (C11_*_safe, C11_*_no_leak via the invariant "owned = blocks of the summary", C11_dead_stays_dead, C11_*_owns_only_own_allocations). '
+       'Tie: event correspondence as for C15 on corpus + random histories of all nine containers (with and without failed calls); wrapped-allocator monitors per call (free of non-live/foreign/returned block, copy outside a live block, overlapping memcpy, '
+       'reachable = live, census after free); thorough tier: the same histories under ASan+UBSan+LSan (clang) as failing-input search.',
+  note='Partial by nature: byte ranges/index arithmetic of copies, uninitialised reads, alignment and signed overflow are outside the ledger - searched by the sanitizer build, never the verdict. Static hash table region: C07 (guard pages). '
+       'Hash functions reading exactly nbytes: C18. Walks are restarted after every modification (a cursor into a modified container is not valid API use). Trusted as C15.',
+  technique='Rocq invariant proof over histories of allocation scripts + wrapped-allocator differential monitors + sanitizer search',
+  design='5.11')
+claim('C12',
+  text='Ownership facts on the ledger, for all states, arguments, oracles and histories: after put/add/push every key and value block of every element either was already stored or was allocated by this call and filled by a copy from the caller '
+       '(caller memory has no block identity in the ledger, so it can never be linked: C12_*_fresh_copies); a block handed to the caller by a copying get/pop/find_min/find_max/getnext/find_nearest/getmulti/toarray/tostring/static-table get is never '
+       'freed, written, read or re-used by any later call of any history nor by the destructor (C12_*_returned_independent, C12_given_untouched). Byte-exact contents for any value (embedded/trailing NUL, zero-filled, 0xff, long) are the refinement '
+       'theorems C01-C10. Tie: in harness/h_api.c every caller buffer is an exact-size heap block overwritten with 0x5A and freed right after the call, every returned copy is snapshotted and re-inspected after every later op and after the '
+       'container is released (plain build with 0xDD-filled quarantine; ASan build in the thorough tier), contents and results are compared byte for byte with a plain reference model, and the recorded events (who allocated, copied from where, '
+       'what was handed out) equal the extracted scripts.',
+  note='Partial by nature: aliasing is a run-time fact observed by the scribble-and-free discipline, not derivable from a value-based model. Trusted as C15.',
+  technique='Rocq ownership theorems on an allocation ledger + scribble/free/re-inspect monitor + reference comparison + event correspondence',
+  design='5.12')
